@@ -693,6 +693,8 @@ pub struct FsckOut {
     pub nodes: usize,
     pub junk_exposed: Vec<(String, u32, u32)>,
     pub junk_in_extent: Vec<(String, u32, u32)>,
+    /// unreferenced allocated cluster -> (free | live) cluster it links to
+    pub lost_dangling: Vec<(u32, u32, bool)>,
 }
 
 #[derive(Clone, Copy, PartialEq, Debug)]
@@ -748,6 +750,18 @@ pub fn fsck(snap: &Snap, pending: &[Pending], mode: FsckMode) -> (FsckOut, Walk)
         }
     }
     out.referenced = referenced.len() as u32;
+    // an unreferenced chain is tolerable residue; one that links into free space or into a live
+    // chain is not (the next allocation / a repair tool turns it into a cross-link)
+    for &c in &lost {
+        let v = snap.ent(c);
+        if v >= 2 && v < vol.clusters + 2 {
+            if snap.ent(v) == 0 {
+                out.lost_dangling.push((c, v, false));
+            } else if referenced.contains(&v) {
+                out.lost_dangling.push((c, v, true));
+            }
+        }
+    }
     // group lost clusters into chains
     let lost_set: HashSet<u32> = lost.iter().cloned().collect();
     let mut has_pred: HashSet<u32> = HashSet::new();
